@@ -2,6 +2,7 @@
 #include "common/vlog.h"
 #include <igris/util/string.h>
 #include <igris/datastruct/argvc.h>
+#include <igris/creader.h>
 #include <igris/shell/mshell.h>
 #include <igris/shell/rshell.h>
 #include <igris/util/pathops.h>
@@ -83,6 +84,14 @@ int main(int argc, char **argv) {
             long amax = b.empty() ? 1 : b[0] + (b.size() > 1 ? 256 * b[1] : 0); unsigned char *o = (unsigned char *)malloc(amax + 2 * G); memset(o, 0xA5, amax + 2 * G);
             int r = fn == "rshell_help" ? rshell_help(n == 1 ? rtab1 : n == 2 ? rtab2 : rtab_all, (char *)o + G, (int)amax) : rshell_tables_help(rtabs, (char *)o + G, (int)amax);
             e.i("ret", r).i("amax", amax).bytes("win", o, amax + 2 * G); free(o); }
+        else if (fn == "creader_lines") {   // every line of the text through creader_readline (the text is an exactly sized, unterminated heap block)
+            char *p = blk(s, false); struct creader rd; creader_init(&rd, p, s.size()); std::string ls = "["; long calls = 0; bool first = true;
+            for (;;) { const char *tok = 0; ++calls; ptrdiff_t len = creader_readline(&rd, &tok); if (len < 0 || calls > (long)s.size() + 3) break;
+                if (!first) ls += ","; first = false; ls += "[" + std::to_string((long)(tok - p)) + "," + std::to_string((long)len) + "]"; }
+            e.raw("lines", ls + "]").i("calls", calls).i("cur", (long)creader_curpos(&rd)).i("atend", creader_end(&rd) ? 1 : 0); free(p); }
+        else if (fn == "creader_skip") {    // skip the characters of the set a from cursor position n
+            char *p = blk(s, false); char *set = blk(a, true); struct creader rd; creader_init(&rd, p, s.size()); rd.cursor = p + n;
+            int r = creader_skip(&rd, set); e.i("ret", r).i("cur", (long)creader_curpos(&rd)); free(p); free(set); }
         else if (fn == "path_next") { char *p = blk(s, true); unsigned len = 0; const char *r = path_next(p, &len); e.i("off", r ? (long)(r - p) : -1).i("len", r ? len : 0); free(p); }
         else if (fn == "path_iterate") { char *p = blk(s, true); const char *r = path_iterate(p); e.i("off", r ? (long)(r - p) : -1); free(p); }
         else if (fn == "compare_node") { char *p = blk(s, true), *q = blk(a, true); e.i("ret", path_compare_node(p, q)); free(p); free(q); }
